@@ -21,10 +21,12 @@ def monitor (a : OpInst) (impl : String) : Option Bool :=
     | none =>
       -- framing error (body is not an encoding of the layout): detected → A and B fail; or skipped harmlessly
       -- while reporting a broker error → nothing unread, B as fresh.  Never "ok".
-      some ((isFailStr ra && isFailStr rb) || (ra.startsWith "kafka:" && unread == "0" && same == "same"))
+      -- B failing with io.ErrNoProgress was attempted on a stream left in mid-response: after a failed A the Conn is
+      -- closed and B fails before reading anything
+      some ((isFailStr ra && isFailStr rb && rb != "fail:noprogress") || (ra.startsWith "kafka:" && unread == "0" && same == "same"))
     | some okA =>
       some (okA && isDone ra && isDone rb &&
-        (if isFailStr ra then isFailStr rb else unread == "0" && same == "same"))
+        (if isFailStr ra then isFailStr rb && rb != "fail:noprogress" else unread == "0" && same == "same"))
   | _ => some false
 
 def model (topic : Bytes) (a b : OpInst) : Option String :=
@@ -98,7 +100,7 @@ def monitorSeq (xs : List OpInst) (impl : String) : Bool :=
     match xs, rs with
     | [], [] => true
     | x :: xr, r :: rr =>
-      if dead then isFailStr r && go xr rr true
+      if dead then isFailStr r && r != "fail:noprogress" && go xr rr true
       else
         let okHere := match specJudge x r with
           | some ok => ok && isDone r
